@@ -301,4 +301,21 @@ Section Facts.
     unfold f_exact in H. rewrite Hf in H. apply orb_true_iff in H as [H|H]; [now left|].
     right. now apply andb_true_iff in H.
   Qed.
+
+  (* every unreported death of the child is reported by ChildProcessError, whatever the crash point *)
+  Lemma died_is_cpe : forall b s f, lreach P C b s -> p_stat (ps s) = PSDone f ->
+    child_died_unreported b (c_killed (cs s)) f = true -> f = FRaise (XCls ChildProcessErrorC).
+  Proof.
+    intros b s f Hr Hf Hd. unfold child_died_unreported in Hd.
+    repeat (apply andb_true_iff in Hd; let H' := fresh "H" in destruct Hd as [Hd H']).
+    apply negb_true_iff in Hd. apply negb_true_iff in H0.
+    assert (Hc : is_cpe f = true).
+    { destruct (death_outcome b s f Hr Hf) as [Hm | [_ Hm]]; [|exact Hm].
+      unfold model_final in Hm. destruct (returns_envelope b).
+      - destruct f as [| |[| |]]; discriminate.
+      - destruct (callee_reports b) eqn:Er.
+        + rewrite Hm in H0. discriminate.
+        + rewrite Hd in Hm. cbn in Hm. now rewrite orb_false_r in Hm. }
+    destruct f as [| |[|c|]]; try discriminate. cbn in Hc. apply exn_eqb_eq in Hc. now subst.
+  Qed.
 End Facts.
